@@ -67,8 +67,14 @@ pub fn gen_doc(rng: &mut Rng, idx: usize) -> DocSpec {
   }
   let n = if rng.chance(1, 8) { None } else { Some(rng.range(-3, 20)) };
   let mut ms = Vec::new();
-  for _ in 0..rng.below(4) {
-    ms.push(rng.range(0, 12) * 5);
+  if rng.chance(1, 8) {
+    // values stay in document order in the column: leave a bucket and come back to it
+    let v = rng.range(0, 8) * 5;
+    ms = vec![v, v + 20, v + if rng.chance(1, 2) { 0 } else { 1 }, v + 25, v];
+  } else {
+    for _ in 0..rng.below(5) {
+      ms.push(rng.range(0, 12) * 5);
+    }
   }
   let price = if rng.chance(1, 6) { None } else { Some(rng.range(-30, 60) as f64 / 2.0) };
   DocSpec { idx, body, tag, cats, n, ms, price }
